@@ -40,6 +40,7 @@ class SessionModel(object):
         self.ip.call_hook = self._hook
         self.ip.while_unroll = 1
         self.ip.merge_loops = True
+        self.ip.unpack_may_raise = True
         self.ip.merge_call_prefixes = ('yabgp.message.',)
         self.ip.opaque_funcs = {'yabgp.message.update.Update.parse',
                                 'yabgp.message.update.Update.construct',
